@@ -32,6 +32,7 @@ type FuncContract struct {
 	Extern   bool
 	Spec     bool   // spec function: Body holds the expression
 	Body     string // spec body
+	Rec      bool   // recursive spec function: an uninterpreted function plus definitional unfoldings
 	Clauses  []Clause
 	File     string
 	Line     int
@@ -387,6 +388,7 @@ func isFresh(x interface{}) bool { return false }
 func mapAt(m interface{}, key interface{}) interface{} { return nil }
 func mapAll(m interface{}) interface{} { return nil }
 func ghostAll(name string) interface{} { return nil }
+func anyElems(s interface{}) interface{} { return nil }
 func mapHas(m interface{}, key interface{}) bool { return false }
 func disk(path string) int { return 0 }
 func diskOfFile(f interface{}) int { return 0 }
@@ -407,6 +409,7 @@ func sameSlice(a, b []byte) bool    { return false }
 func subslice(a, b []byte) bool     { return false }
 func sliceOff(a, b []byte) int      { return 0 }
 func iteInt(c bool, a, b int) int   { return 0 }
+func iteStr(c bool, a, b string) string { return "" }
 `
 
 // GenLine records which clause an emitted statement belongs to.
@@ -430,6 +433,13 @@ func (cf *ContractFile) Generate() (string, error) {
 				return "", fmt.Errorf("%s:%d: %v", fc.File, fc.Line, err)
 			}
 			fc.GenName = fc.Name
+			if b := strings.TrimSpace(fc.Body); strings.HasPrefix(b, "rec ") {
+				fc.Rec = true
+				body, err = RewriteExpr(strings.TrimPrefix(b, "rec "))
+				if err != nil {
+					return "", fmt.Errorf("%s:%d: %v", fc.File, fc.Line, err)
+				}
+			}
 			if strings.TrimSpace(fc.Body) == "uninterpreted" {
 				fmt.Fprintf(&sb, "\n%s { panic(\"uninterpreted\") }\n", fc.Sig)
 				continue
